@@ -156,7 +156,7 @@ def run_history(world, spec, hist, store_kind, oracles, sigtab=None, opts=None, 
 def _pkg_in_sig(spec):
     """programs whose source text or external names legitimately spell the (per-instance) package name"""
     k = spec["key"]
-    return k.startswith("ext|") or k in ("import_inside_function", "module_imported_inside_function") or "form=import_full" in k or "access=import_full" in k or k == "untracked_module_object" or bool(spec.get("ext"))
+    return k.startswith("ext|") or k in ("import_inside_function", "module_imported_inside_function", "module_imported_inside_function|hof") or "form=import_full" in k or "access=import_full" in k or k == "untracked_module_object" or bool(spec.get("ext"))
 
 
 def _served(prog, spec):
